@@ -119,18 +119,45 @@ fn kind_of(k: usize) -> Kind {
         0 => Kind::DefaultChunked,
         1 => Kind::Sized(u64::MAX),
         2 => Kind::ExplicitTe,
-        _ => Kind::DespiteGet,
+        3 => Kind::DespiteGet,
+        _ => Kind::DefaultChunkedHttp10,
     }
 }
 
+/// "The advertised size is n itself for a length-delimited body" - also when less than n remains of the declared length
+/// (the write is then not performed: offering more than the remainder is refused, which is C04's clause).
+fn check_sized_small(total: u64, sent: usize, n: usize, st: &mut Stats) -> Result<(), String> {
+    let mut s = Sender::new(Api::Flow, Kind::Sized(total))?;
+    if sent > 0 {
+        let input = &pattern()[..sent];
+        let (c, _) = with_out(sent, |out| s.write(input, out)).map_err(|e| format!("setup write: {:?}", e))?;
+        if c != sent {
+            return Err(format!("setup write consumed {} of {}", c, sent));
+        }
+    }
+    let m = s.max_input(n).unwrap();
+    st.evals(1);
+    if m != n {
+        return Err(format!("length-delimited body (content-length {}, {} sent): calculate_max_input({}) = {}", total, sent, n, m));
+    }
+    st.class("sized_small_remaining");
+    Ok(())
+}
+
 fn exec_enum(t: &mut Tape, st: &mut Stats) -> Result<(), String> {
-    let k = t.below(2);
+    let k = t.below(3);
     let n = t.below(ENUM_MAX as usize + 1);
+    if k == 2 {
+        // every n also against a small declared length, fresh and after some of it was sent; and over HTTP/1.0
+        check_sized_small(1000, 0, n, st)?;
+        check_sized_small(1000, 300 + n % 700, n, st)?;
+        return check_one(Kind::DefaultChunkedHttp10, n, st);
+    }
     check_one(kind_of(k), n, st)
 }
 
 fn exec_random(t: &mut Tape, st: &mut Stats) -> Result<(), String> {
-    let k = t.below(4);
+    let k = t.below(5);
     // 0 => just above the enumerated range; otherwise up to 2^22 with a bias to boundaries
     let n = match t.weighted(&[2, 3, 3]) {
         0 => ENUM_MAX as usize + 1 + t.below(4096),
@@ -146,7 +173,8 @@ fn exec_random(t: &mut Tape, st: &mut Stats) -> Result<(), String> {
 
 pub static DEF: PropDef = PropDef {
     id: "C18",
-    rule: "enumeration: every output length n in 0..=30808 x {chunked, length-delimited} on a Flow in the \
+    rule: "enumeration: every output length n in 0..=30808 x {chunked, length-delimited with a huge declared length, chunked over \
+HTTP/1.0; plus calculate_max_input(n) == n on a 1000-byte declared length, fresh and after 300..999 bytes were sent} on a Flow in the \
 body state: m = calculate_max_input(n) must satisfy m <= n, m(n-1) <= m(n), m == n when not chunked, and \
 one write of m pattern bytes into an n-byte buffer must consume exactly m and decode (strict chunk decoder / \
 identity) to that input. random: n up to 2^22 biased to multiples of the chunk unit, four body kinds. \
@@ -159,8 +187,8 @@ chunk+overhead; distinct by (n, chunked).",
     exec: exec_enum,
     enums: &[EnumDef {
         name: "all_n",
-        count: |_| 2 * (ENUM_MAX + 1),
-        tape: |_, idx| vec![(idx % 2) as u32, (idx / 2) as u32],
+        count: |_| 3 * (ENUM_MAX + 1),
+        tape: |_, idx| vec![(idx % 3) as u32, (idx / 3) as u32],
         exhaustive: true,
         exec: None,
     }],
